@@ -149,8 +149,14 @@ Definition op_generics (s : item_struct) : generics :=
 Definition cmp_used_fields (op : cmpop) (fs : list fentry) : list fentry :=
   filter (fun f => negb (cmp_ignored op (ha_cmp (fe_hattrs f)))) fs.
 
+(** operators and `Eq` print the declared bounds with `Self` expanded to the type itself *)
+Definition decl_generics (k : kind) (name : string) (g : generics) : generics :=
+  match k with
+  | KBin _ | KAssign _ | KUn _ | KCmp CEq => expand_self_generics (this_ty_of name g) g
+  | _ => g
+  end.
 Definition struct_decl_generics (k : kind) (s : item_struct) : generics :=
-  match k with KBin _ | KAssign _ | KUn _ => op_generics s | _ => s_generics s end.
+  decl_generics k (s_name s) (s_generics s).
 
 Definition struct_vplans (k : kind) (h : hattrs) (fs : list fentry) : list vplan :=
   match k with
